@@ -536,6 +536,23 @@ def _decoded_text_family(out: dict) -> None:
                     bad += 1
                     out["failures"].append({"check": "c14.AnsiDecoder.decoded_text_prints", "what": "decoding / printing the decoded Text raised %s" % type(e).__name__,
                                             "input_key": repr(s), "input": s, "expected": "no exception", "observed": "%s: %s" % (type(e).__name__, e)})
+    # OSC sequences: every body of up to 5 symbols over {"8", ";", "u", "id=1", "0"} (well-formed hyperlinks, hyperlinks
+    # without the second ';', empty bodies, other OSC numbers), terminated by ST or BEL or left unterminated
+    osc_alpha = ["8", ";", "u", "id=1", "0"]
+    for k in range(0, 6):
+        for combo in itertools.product(osc_alpha, repeat=k):
+            for end in ("\x1b\\", "\x07", ""):
+                s = "a\x1b]" + "".join(combo) + end + "b\x1b]8;;\x1b\\c"
+                n += 1
+                try:
+                    texts = list(AnsiDecoder().decode(s))
+                    for t in texts:
+                        consoles[3].print(t)
+                except Exception as e:  # noqa
+                    if bad < 3:
+                        bad += 1
+                        out["failures"].append({"check": "c14.AnsiDecoder.decoded_text_prints", "what": "decoding / printing the decoded Text raised %s" % type(e).__name__,
+                                                "input_key": repr(s), "input": s, "expected": "no exception", "observed": "%s: %s" % (type(e).__name__, e)})
     out["clauses"]["c14.AnsiDecoder.decoded_text_prints"] = n
     out["evaluations"] += n
 
